@@ -20,6 +20,150 @@ KANI = "Kani 0.68.0 / CBMC 6.11.0 / CaDiCaL soundness; Kani's MIR-to-goto transl
 
 SPECS = {}
 
+SPECS["C01"] = dict(
+    feature="c01",
+    functions=["rs1090::decode::bds::bds05..bds65 derived readers and field readers (all 19 payload types, via X::try_from / from_bytes at the offset their caller uses)",
+               "rs1090::decode::{AC13Field,IdentityCode}::read, decode_id13, gray2alt", "Display impls of the ADS-B payload types",
+               "rs1090::decode::Message::try_from / from_reader_with_ctx, DF::from_reader_with_ctx, ADSB, ME, ControlField, DF20/DF21DataSelector (whole-frame harnesses)"],
+    trusted_base=[KANI, DEKU, FMT, TRACING, REGEX, "libm::atan2 / hypot / round replaced by contract stubs (stubs.rs)"],
+    bounds="payload harnesses: all 2^56 payload contents per type; whole-frame harnesses: discriminating bytes (byte 0, and byte 4 for DF17/18) concrete, every other bit symbolic; lengths 0..=32; unwind 17 with unwinding assertions",
+    outside="the real bit reader (modelled); regex verdict on BDS 2,1 (both outcomes explored); text of error/log messages; Debug rendering; float digit generation",
+    assumptions=["ADS-B payload structs read from bit 0 (BDS 0,5/0,6/0,8) get the type-code range their ME dispatcher guarantees (an under-constrained struct-level analysis would report 14 - tc for tc > 14, which no caller can pass); the whole-frame harnesses re-establish that guarantee through Message::try_from"],
+    harnesses=[
+        H("c01::total_bds05", timeout=900, mem_gb=3, bounds="all 2^56 payloads of BDS 0,5"),
+        H("c01::total_bds06", timeout=900, mem_gb=3, bounds="all 2^56 payloads of BDS 0,6"),
+        H("c01::total_bds08", timeout=900, mem_gb=3, bounds="all 2^56 payloads of BDS 0,8"),
+        H("c01::total_bds09", timeout=900, mem_gb=3, bounds="all 2^56 payloads of BDS 0,9"),
+        H("c01::total_bds61", timeout=900, mem_gb=3, bounds="all 2^56 payloads of BDS 6,1"),
+        H("c01::total_bds62", timeout=900, mem_gb=3, bounds="all 2^56 payloads of BDS 6,2"),
+        H("c01::total_bds65", timeout=900, mem_gb=3, bounds="all 2^56 payloads of BDS 6,5"),
+        H("c01::total_bds10", timeout=900, mem_gb=3, bounds="all 2^56 payloads of BDS 1,0"),
+        H("c01::total_bds17", timeout=900, mem_gb=3, bounds="all 2^56 payloads of BDS 1,7"),
+        H("c01::total_bds18", timeout=900, mem_gb=3, bounds="all 2^56 payloads of BDS 1,8"),
+        H("c01::total_bds19", timeout=900, mem_gb=3, bounds="all 2^56 payloads of BDS 1,9"),
+        H("c01::total_bds20", timeout=900, mem_gb=3, bounds="all 2^56 payloads of BDS 2,0"),
+        H("c01::total_bds21", timeout=1800, mem_gb=12, ulimit_gb=30, bounds="all 2^56 payloads of BDS 2,1"),
+        H("c01::total_bds30", timeout=900, mem_gb=3, bounds="all 2^56 payloads of BDS 3,0"),
+        H("c01::total_bds40", timeout=900, mem_gb=3, bounds="all 2^56 payloads of BDS 4,0"),
+        H("c01::total_bds44", timeout=900, mem_gb=3, bounds="all 2^56 payloads of BDS 4,4"),
+        H("c01::total_bds45", timeout=900, mem_gb=3, bounds="all 2^56 payloads of BDS 4,5"),
+        H("c01::total_bds50", timeout=900, mem_gb=3, bounds="all 2^56 payloads of BDS 5,0"),
+        H("c01::total_bds60", timeout=900, mem_gb=3, bounds="all 2^56 payloads of BDS 6,0"),
+        H("c01::total_bds05_commb", timeout=900, mem_gb=3, bounds="BDS 0,5 as Comm-B hypothesis: tc in 9..22 except 19"),
+        H("c01::total_bds65_commb", timeout=900, mem_gb=3, bounds="BDS 6,5 as Comm-B hypothesis: tc 31, id < 2"),
+        H("c01::render_bds05", tier="thorough", timeout=1800, mem_gb=4, bounds="Display of every accepted BDS 0,5 payload"),
+        H("c01::render_bds06", tier="thorough", timeout=1800, mem_gb=4, bounds="Display of every accepted BDS 0,6 payload"),
+        H("c01::render_bds08", tier="thorough", timeout=1800, mem_gb=4, bounds="Display of every accepted BDS 0,8 payload"),
+        H("c01::render_bds09", tier="thorough", timeout=1800, mem_gb=4, bounds="Display of every accepted BDS 0,9 payload"),
+        H("c01::render_bds61", tier="thorough", timeout=1800, mem_gb=4, bounds="Display of every accepted BDS 6,1 payload"),
+        H("c01::render_bds62", tier="thorough", timeout=1800, mem_gb=4, bounds="Display of every accepted BDS 6,2 payload"),
+        H("c01::render_bds65", tier="thorough", timeout=1800, mem_gb=4, bounds="Display of every accepted BDS 6,5 payload"),
+    ],
+)
+
+SPECS["C02"] = dict(
+    feature="c02",
+    functions=["rs1090::decode::crc::modes_checksum", "rs1090::decode::crc::CRC_TABLE", "rs1090::decode::Message::from_reader_with_ctx (DF17 rejection arm)",
+               "rs1090::decode::IcaoParity (map to crc context)", "rs1090::decode::Message::try_from", "DF::from_reader_with_ctx arms 0,4,5,16,17,20,21"],
+    trusted_base=[KANI, DEKU, FMT, TRACING],
+    bounds="frame lengths 7 and 14 bytes (the only accepted lengths); all 2^56 / 2^112 contents for the checksum; all 112 single-bit, all 6216 double-bit, all (2^24-1) x 89 burst patterns; all 2^24 addresses; unwind 15-26",
+    outside="DF17 acceptance gate and end-to-end corruption are decided on type code 0 payloads (gate code does not read the payload); DF20/21 address recovery with an all-zero MB field "
+            "(the address is the crc context, MB is not read on that path; checksum correctness for every frame is checksum_long + overlay_checksum); e2e errors touching bytes 0/4 are covered at syndrome level only",
+    assumptions=["oracle: bit-serial GF(2) division by 0x1FFF409 written from Annex 10 in harness/src/refs.rs (no table)"],
+    harnesses=[
+        H("c02::table_entries", timeout=120, bounds="all 256 indices"),
+        H("c02::table_step", timeout=120, bounds="all 2^24 remainders x 2^8 bytes"),
+        H("c02::checksum_long", timeout=600, bounds="all 2^112 frames"),
+        H("c02::checksum_short", timeout=300, bounds="all 2^56 frames"),
+        H("c02::linear", timeout=600, bounds="all pairs of 112-bit frames"),
+        H("c02::err_single", timeout=300, bounds="all 112 positions"),
+        H("c02::err_double", timeout=600, bounds="all 6216 pairs"),
+        H("c02::err_burst", timeout=900, bounds="all non-zero 24-bit patterns at all 89 offsets"),
+        H("c02::gate_df17_reject", timeout=900, bounds="byte0 = 0x88..0x8f (3 symbolic bits), all other 104 bits symbolic, remainder != 0"),
+        H("c02::icao_parity_is_ctx", timeout=300, bounds="all 24-bit AP fields x all u32 contexts"),
+        H("c02::gate_df17", tier="thorough", timeout=7200, mem_gb=4, bounds="byte0 = 0x8d, type code 0, 96 symbolic bits"),
+        H("c02::gate_df17_all_ca", tier="thorough", timeout=14400, mem_gb=6, bounds="byte0 = 0x88..0x8f, type code 0"),
+        H("c02::e2e_corruption", tier="thorough", timeout=7200, mem_gb=12, ulimit_gb=30, bounds="valid DF17 tc=0 frame x {1-bit, 2-bit, burst<=24} outside bytes 0 and 4"),
+        H("c02::overlay_checksum", timeout=600, bounds="all payloads x all 2^24 addresses, both lengths"),
+        H("c02::ap_df0", tier="thorough", timeout=7200, mem_gb=4, bounds="byte0 = 0x02; 24 symbolic payload bits; all addresses"),
+        H("c02::ap_df4", tier="thorough", timeout=7200, mem_gb=4, bounds="byte0 = 0x20"),
+        H("c02::ap_df5", tier="thorough", timeout=7200, mem_gb=4, bounds="byte0 = 0x28"),
+        H("c02::ap_df4_fs5", tier="thorough", timeout=7200, mem_gb=4, bounds="byte0 = 0x25"),
+        H("c02::ap_df5_fs7", tier="thorough", timeout=7200, mem_gb=4, bounds="byte0 = 0x2f"),
+        H("c02::ap_df16", tier="thorough", timeout=7200, mem_gb=4, bounds="byte0 = 0x80; 80 symbolic payload bits"),
+        H("c02::ap_df20", tier="thorough", timeout=7200, mem_gb=4, bounds="byte0 = 0xa0; MB = 0; 24 symbolic header bits"),
+        H("c02::ap_df21", tier="thorough", timeout=7200, mem_gb=4, bounds="byte0 = 0xa8; MB = 0"),
+    ],
+)
+
+SPECS["C04"] = dict(
+    feature="c04", feature_thorough="c04lon",
+    functions=["rs1090::decode::cpr::airborne_position", "rs1090::decode::cpr::nl", "rs1090::decode::cpr::modulo", "libm::floor",
+               "rs1090::decode::bds::bds05::AirbornePosition::try_from (to obtain the reports)"],
+    trusted_base=[KANI, DEKU, FMT, "CBMC's IEEE-754 double-precision bit-blasting (no float is abstracted)",
+                  "tools/gen.py: NL transition latitudes from the closed formula of DO-260B A.1.7.2.d (oracle side), representative latitude per NL band"],
+    bounds="17-bit counts (all values); latitude stage: every cell-consistent pair of extended counts in [-90, 90]; longitude stage: every cell-consistent pair of extended longitude counts, at ONE representative latitude per NL band (59 bands x 2 report orders, plus southern instances); unwind 60 (NL table scan)",
+    outside="longitude exactness at other latitudes of the same band (by inspection the longitude stage reads the latitude only through nl(lat)); |lat| within 1e-9 of an NL transition latitude (oracle does not decide NL there)",
+    assumptions=["cell model of the CPR encoder (DO-260B A.1.7.3): extended count E = floor(x/D * 2^17 + 1/2); two reports come from one point iff their half-open cells intersect",
+                 "decoder is right iff it returns the centre of the later report's cell (every point of a cell is within 2.6 m of the centre), tolerance 1e-9 degrees"],
+    harnesses=[
+        H("c04::lat_north_even_last", timeout=3600, mem_gb=4, bounds="E0 in [0, 60*2^15], E1 in [0, 59*2^15], cells intersecting"),
+        H("c04::lat_north_odd_last", timeout=3600, mem_gb=4, bounds="same, odd report last"),
+        H("c04::lat_south_even_last", timeout=3600, mem_gb=4, bounds="E0 in [-60*2^15, 0], E1 in [-59*2^15, 0]"),
+        H("c04::lat_south_odd_last", timeout=3600, mem_gb=4, bounds="same, odd report last"),
+        H("c04::same_parity_none", timeout=600, mem_gb=2, bounds="all 2^68 count combinations x 2 parities"),
+        H("c04::range_any_pair", timeout=3600, mem_gb=6, bounds="all 2^68 count combinations x 2 orders"),
+    ] + [H("c04::lon_nl%02d_%s_last" % (n, o), tier=("quick" if n in (1, 2, 30, 59) else "thorough"), timeout=5400, mem_gb=4, bounds="NL = %d, F0 in [0, %d*2^17], F1 in [0, %d*2^17], cells intersecting" % (n, n, max(n - 1, 1)))
+         for n in range(1, 60) for o in ("even", "odd")]
+      + [H("c04::lon_south_nl%02d_%s_last" % (n, o), tier="thorough", timeout=5400, mem_gb=4, bounds="NL = %d, southern hemisphere" % n)
+         for n in (1, 2, 30, 59) for o in ("even", "odd")],
+)
+
+SPECS["C05"] = dict(
+    feature="c05", feature_thorough="c05lon",
+    functions=["rs1090::decode::cpr::airborne_position_with_reference", "rs1090::decode::cpr::surface_position_with_reference", "rs1090::decode::cpr::nl", "libm::floor", "libm::fabs",
+               "AirbornePosition::try_from / SurfacePosition::try_from (to obtain the reports)"],
+    trusted_base=[KANI, DEKU, FMT, "CBMC's IEEE-754 double-precision bit-blasting", "tools/gen.py NL transition latitudes (closed formula) and representative latitude per NL band"],
+    bounds="stays-near: ALL finite f64 references x all 2^34 count pairs x both parities, airborne and surface; exactness: every true latitude cell with every reference within 0.95 of half a zone; longitude exactness per NL band at one representative latitude (4 bands in quick, all 59 x 2 parities x 2 encodings in thorough); unwind 60",
+    outside="that the 180 NM / 45 NM disc lies inside the +-0.95 half-zone box is a geometric fact about the NL table, assumed; longitude exactness at other latitudes of a band (the code reads the latitude only through nl(lat)); latitudes within 1e-9 of an NL transition",
+    assumptions=["cell model of the CPR encoder as in C04", "reference offsets are quantified as a box in (lat, lon), not as a great-circle disc"],
+    harnesses=[
+        H("c05::near_airborne", timeout=1200, mem_gb=3, bounds="all finite references, all counts, both parities"),
+        H("c05::near_surface", timeout=1200, mem_gb=3, bounds="all finite references, all counts, both parities"),
+        H("c05::lat_air_even", timeout=3600, mem_gb=4, bounds="all cells in [-90, 90], reference within 0.475 Dlat"),
+        H("c05::lat_air_odd", timeout=3600, mem_gb=4, bounds="same, odd"),
+        H("c05::lat_surf_even", timeout=3600, mem_gb=4, bounds="surface encoding, even"),
+        H("c05::lat_surf_odd", timeout=3600, mem_gb=4, bounds="surface encoding, odd"),
+    ] + [H("c05::lon_%s_%s_nl%02d" % (e, p, n), tier=("quick" if n in (1, 2, 30, 59) else "thorough"), timeout=3600, mem_gb=4,
+           bounds="NL = %d, every longitude cell, reference within 0.475 of a zone in both coordinates, both sides of the wrap" % n)
+         for e in ("air", "surf") for p in ("even", "odd") for n in range(1, 60)],
+)
+
+SPECS["C08"] = dict(
+    feature="c08",
+    functions=["rs1090::decode::bds::{bds05,bds06,bds08,bds09,bds20,bds21,bds40,bds44,bds45,bds50,bds60,bds61,bds62} readers (same entry points as C01(a))",
+               "squawk / 13-bit altitude of DF 4/5/20/21 headers: IdentityCode::read, AC13Field::read (decided for all 2^13 codes under C13)"],
+    trusted_base=[KANI, DEKU, FMT, TRACING, REGEX, "libm::atan2 -> contract stub: result in [-pi, pi], sign/quadrant as IEEE atan2, |result| >= 2^-12 or 0 (the wrap logic of BDS 0,9 track is therefore decided for every angle libm can return on the +-1022 grid, and more)", "libm::hypot -> contract stub (max(|x|,|y|) <= r <= |x|+|y|)"],
+    bounds="all 2^56 payload contents per type; unwind 17",
+    outside="numerical quality of libm::atan2/hypot; positions (latitude/longitude are None until CPR decoding: C04/C05)",
+    assumptions=["BDS 0,5/0,6/0,8 type codes assumed in the range their ME dispatcher guarantees"],
+    harnesses=[
+        H("c08::range_bds05", tier="quick", timeout=600, mem_gb=3, ulimit_gb=None, bounds="all 2^56 payloads of BDS 0,5"),
+        H("c08::range_bds06", tier="quick", timeout=600, mem_gb=3, ulimit_gb=None, bounds="all 2^56 payloads of BDS 0,6"),
+        H("c08::range_bds08", tier="quick", timeout=1800, mem_gb=10, ulimit_gb=30, bounds="all 2^56 payloads of BDS 0,8"),
+        H("c08::range_bds09", tier="quick", timeout=900, mem_gb=4, ulimit_gb=None, bounds="all 2^56 payloads of BDS 0,9"),
+        H("c08::range_bds61", tier="quick", timeout=600, mem_gb=3, ulimit_gb=None, bounds="all 2^56 payloads of BDS 6,1"),
+        H("c08::range_bds62", tier="quick", timeout=900, mem_gb=4, ulimit_gb=None, bounds="all 2^56 payloads of BDS 6,2"),
+        H("c08::range_bds20", tier="quick", timeout=1800, mem_gb=10, ulimit_gb=30, bounds="all 2^56 payloads of BDS 2,0"),
+        H("c08::range_bds21", tier="thorough", timeout=2400, mem_gb=14, ulimit_gb=34, bounds="all 2^56 payloads of BDS 2,1"),
+        H("c08::range_bds40", tier="quick", timeout=900, mem_gb=4, ulimit_gb=None, bounds="all 2^56 payloads of BDS 4,0"),
+        H("c08::range_bds44", tier="quick", timeout=900, mem_gb=4, ulimit_gb=None, bounds="all 2^56 payloads of BDS 4,4"),
+        H("c08::range_bds45", tier="quick", timeout=900, mem_gb=4, ulimit_gb=None, bounds="all 2^56 payloads of BDS 4,5"),
+        H("c08::range_bds50", tier="quick", timeout=900, mem_gb=4, ulimit_gb=None, bounds="all 2^56 payloads of BDS 5,0"),
+        H("c08::range_bds60", tier="quick", timeout=900, mem_gb=4, ulimit_gb=None, bounds="all 2^56 payloads of BDS 6,0"),
+    ],
+)
+
 SPECS["C13"] = dict(
     feature="c13",
     functions=["rs1090::decode::decode_id13", "rs1090::decode::gray2alt", "rs1090::decode::AC13Field::read",
@@ -38,6 +182,60 @@ SPECS["C13"] = dict(
         H("c13::gray2alt_onto", timeout=120, bounds="steps 0..=1266"),
         H("c13::id13_permutation", timeout=120, bounds="all pairs of 13-bit fields"),
         H("c13::squawk_oracle", timeout=120, bounds="all 2^13 identity fields"),
+    ],
+)
+
+SPECS["C14"] = dict(
+    feature="c14",
+    functions=["rs1090::data::tail::n_reg", "rs1090::data::tail::n_letters", "rs1090::data::tail::n_letter", "rs1090::data::tail::ja_reg", "rs1090::data::tail::hl_reg"],
+    trusted_base=[KANI, FMT + " (n_reg, hl_reg and the disjointness harness; ja_reg runs with its real string building)",
+                  "tools/gen.py: ordered address-block table extracted from /repo/crates/rs1090/data/patterns.json at check time"],
+    bounds="all 2^32 arguments (the property asks for 2^24 plus out-of-range values); unwind 12-30; country table scan 201 entries",
+    outside="PARTIAL CLAIM: numeric_reg and stride_reg (Lazy tables of 39 mappings built during symbolic execution: no answer in 30 min), hence tail() as a whole, injectivity of n_reg/hl_reg strings (need the real format!) and across the stride ranges, aircraft_information's serde_json/regex lookup",
+    assumptions=["country of an address = FIRST block of patterns.json containing it (what aircraft_information does)"],
+    harnesses=[
+        H("c14::ja_total_inverse", timeout=1200, mem_gb=4, bounds="all u32; real strings"),
+        H("c14::n_total", timeout=1200, mem_gb=4, bounds="all u32; format! stubbed"),
+        H("c14::hl_total", timeout=600, mem_gb=3, bounds="all u32; format! stubbed"),
+        H("c14::schemes_disjoint", timeout=1800, mem_gb=6, bounds="all u32; format! stubbed"),
+    ],
+)
+
+SPECS["C15"] = dict(
+    feature="c15",
+    functions=["rs1090::decode::flarm::Flarm::from_record", "derived Flarm reader", "Flarm::decode_btea", "btea", "mx", "fixk", "make_key", "obscure",
+               "Flarm::decode_latitude", "decode_longitude", "decode_actype", "decode_groundspeed", "decode_track", "magic_value", "Address reader"],
+    trusted_base=[KANI, DEKU, FMT, "libm::atan2 -> contract stub (range, sign, quadrant, octant, magnitude floor)",
+                  "field / length harnesses: rs1090::decode::flarm::btea stubbed to the identity under Kani (natively the plaintext is encrypted by the harness' independent XXTEA encryptor and decrypted by the real code)"],
+    bounds="packet lengths 0,3,4,19,25,26,27,40 (one harness each; 26 with the real cipher), every content, every u32 timestamp, every f64 reference bit pattern; fields: every 160-bit plaintext block, 24-bit address, finite reference on the globe, true position within (0x40000-2)*128e-7 deg lat / (0x80000-2)*128e-7 deg lon of the reference; cipher equivalence per word with kissat (thorough); unwind 30-46",
+    outside="other packet lengths; numerical quality of libm::atan2; sqrt is CBMC's IEEE model",
+    assumptions=["packer/encryptor written from the public FLARM v6 packet description and textbook XXTEA (Wheeler & Needham), 6 rounds, n = 5"],
+    harnesses=[
+        H("c15::total_len26", timeout=2400, mem_gb=6, bounds="26 bytes, real cipher"),
+        H("c15::total_len00", timeout=600, mem_gb=3, bounds="length 0"),
+        H("c15::total_len03", timeout=600, mem_gb=3, bounds="length 3"),
+        H("c15::total_len25", timeout=900, mem_gb=3, bounds="length 25"),
+        H("c15::total_len04", tier="thorough", timeout=600, mem_gb=3, bounds="length 4"),
+        H("c15::total_len19", tier="thorough", timeout=900, mem_gb=3, bounds="length 19"),
+        H("c15::total_len27", tier="thorough", timeout=2400, mem_gb=6, bounds="length 27"),
+        H("c15::total_len40", tier="thorough", timeout=2400, mem_gb=6, bounds="length 40"),
+        H("c15::fields", timeout=2400, mem_gb=6, bounds="every plaintext block / address / timestamp / reference / true position in window"),
+    ] + [H("c15::cipher_word%d" % i, tier="thorough", timeout=7200, mem_gb=6, bounds="every 160-bit ciphertext, timestamp, address; word %d" % i) for i in range(5)],
+)
+
+SPECS["C17"] = dict(
+    feature="c17",
+    functions=["jet1090::update (sliced verbatim from crates/jet1090/src/main.rs)", "jet1090::Jet1090::next", "jet1090::Jet1090::previous", "jet1090::Jet1090::home",
+               "struct Jet1090, enum SortKey (main.rs), enum Event (tui.rs)"],
+    trusted_base=[KANI, "tools/gen.py item slicer (brace matching, bodies copied verbatim, fails if an item is missing)",
+                  "harness/src/c17.rs models of crossterm KeyCode/KeyEvent and ratatui TableState/ScrollbarState (API subset: select/selected/position) and of tokio MutexGuard (Deref/DerefMut)"],
+    bounds="table sizes 0..=3; one event from ANY invariant-satisfying state (inductive step, covers histories of any length); bounded histories of 4 events from the initial state; every KeyCode variant, arbitrary char, arbitrary tick width; unwind 6",
+    outside="build_table (recomputes items), the event task, terminal drawing; KeyModifiers/KeyEventKind are not read by update()",
+    assumptions=["invariant: selected = Some(i) with (len = 0 and i = 0) or i < len — established by init, preserved by step"],
+    harnesses=[
+        H("c17::step", timeout=300, bounds="sizes 0..=3, any flags, one event"),
+        H("c17::init", timeout=120, bounds="sizes 0..=3"),
+        H("c17::seq4", timeout=900, bounds="sizes 0..=3, 4 events"),
     ],
 )
 
